@@ -26,9 +26,14 @@ META = {
                    "final sources are deployable (default has a schema list, listed schemas exist, every reachable valid schema compiles "
                    "and its dictionary, imports and packs have sources — reuse-without-source and failed builds keep old artefacts by "
                    "design); for idempotence/no-stale-use, no artefact file is claimed with two contents (one prism name per schema, a "
-                   "pack belongs to one primary dictionary). Artefact contents are free terms of their inputs. Not modelled: "
-                   "installation_update, user_dict_upgrade, cleanup_trash, TrashDeprecatedUserCopy, prebuilt data directory, "
-                   "SymlinkingPrebuiltDictionaries. Trusted: Lean kernel, the python abstraction of the generated workspace "
+                   "pack belongs to one primary dictionary). Artefact contents are free terms of their inputs. Not in the Lean model: "
+                   "installation_update, user_dict_upgrade, cleanup_trash, SymlinkingPrebuiltDictionaries (run, judged by the oracles only); "
+                   "TrashDeprecatedUserCopy (which user copies a deployment moves to user/trash is compared, file by file, with a port of "
+                   "the rule in checks/deploy_common.py, and the model is given the sources without them); the prebuilt data directory, "
+                   "RimePrebuildAllSchemas, RimeDeploySchema / RimeDeployConfigFile, verbose recompilation and Customizer::UpdateConfigFile "
+                   "(run on directed / generated histories and judged by the property alone: incremental = clean on what is in use, "
+                   "no-change redeploy writes nothing); a spelling algebra that erases every spelling (BuildPrism fails: excluded by "
+                   "'deployable'). Trusted: Lean kernel, the python abstraction of the generated workspace "
                    "(checks/deploy_common.py), harness/c12_harness.cc, yaml-cpp, marisa, darts."),
     "design_ref": "DESIGN.md §3 C12",
 }
@@ -135,6 +140,60 @@ def correspond(mv, real, dump, ckmap, have_hooks):
     return mm
 
 
+def tamper(root, kind, name):
+    """the staging directory as another version of librime, or an editor, left it; returns the model's view of it"""
+    p = os.path.join(root, "user", "build", name)
+    cfgid = "default" if name == "default.yaml" else "schema:" + name[:-len(".schema.yaml")]
+    if not os.path.isfile(p):
+        return []
+    text = open(p).read()
+    st = os.stat(p)
+    if kind == "no_timestamps":          # a build of librime with RIME_NO_TIMESTAMP: build info without the map
+        lines, out, skip = text.split("\n"), [], False
+        for l in lines:
+            if l.startswith("  timestamps:"):
+                skip = True
+                continue
+            if skip and l.startswith("    "):
+                continue
+            skip = False
+            out.append(l)
+        text = "\n".join(out)
+    elif kind == "no_build_info":        # a compiled config of a librime older than the build info
+        lines, out, skip = text.split("\n"), [], False
+        for l in lines:
+            if l.startswith("__build_info:"):
+                skip = True
+                continue
+            if skip and l.startswith(" "):
+                continue
+            skip = False
+            out.append(l)
+        text = "\n".join(out)
+    elif kind == "bad_timestamp":        # one recorded time is no number
+        import re
+        text = re.sub(r"(\n    default: )\S+", r"\g<1>12x", text, count=1)
+    elif kind == "bad_timestamp_word":   # … nor starts with one
+        import re
+        text = re.sub(r"(\n    default: )\S+", r"\g<1>soon", text, count=1)
+    elif kind == "timestamps_scalar":
+        lines, out, skip = text.split("\n"), [], False
+        for l in lines:
+            if l.startswith("  timestamps:"):
+                out.append("  timestamps: none")
+                skip = True
+                continue
+            if skip and l.startswith("    "):
+                continue
+            skip = False
+            out.append(l)
+        text = "\n".join(out)
+    with open(p, "w") as fh:
+        fh.write(text)
+    os.utime(p, ns=(st.st_mtime_ns, st.st_mtime_ns))
+    return ["drop cfg %s" % cfgid]
+
+
 def run_limited(c, runner, hist, work, tag):
     """The last deployment of the history runs on a "full disk": no file may grow beyond hist["file_size_limit"] bytes
     (whatever it reports).  The sources are then deployed once more without the limit; after that the build directory
@@ -181,10 +240,185 @@ def run_limited(c, runner, hist, work, tag):
     return res
 
 
+def run_customizer(c, runner, rng, work, tag, n_steps=6):
+    """Customizer::UpdateConfigFile, the older way a `<name>.custom.yaml` reaches `<name>.schema.yaml` in the user
+    directory (copy the shared file when its version is newer or the copy carries a patch, apply the patch, stamp version
+    and `customization`).  The property, read on it: after any history of source releases (content changes come with a
+    higher version, as the update strategy in customizer.cc presupposes) and patch edits, each followed by an update, the
+    user copy equals what one update into an empty user directory gives; an update with nothing changed answers "up to
+    date" and leaves the copy alone.  Returns (violations, updates run)."""
+    root = os.path.join(work, tag)
+    shutil.rmtree(root, ignore_errors=True)
+    for d in ("src", "usr", "clean"):
+        os.makedirs(os.path.join(root, d))
+    w = dc.Workspace()
+    spec = {"kind": "schema", "sid": "cz", "dict": "da", "algebra": ["derive/^sh/s/"], "version": "1.0"}
+    major, minor = 1, 0
+    custom = None
+    viol, log, runs = [], [], 0
+    src, dest, cust = (os.path.join(root, "src", "cz.schema.yaml"), os.path.join(root, "usr", "cz.schema.yaml"),
+                       os.path.join(root, "usr", "cz.custom.yaml"))
+
+    def write(destdir=None):
+        w.files = {"shared/s": dict(spec, mtime=0)}
+        with open(src, "w") as fh:
+            fh.write(w.render_file("shared/s"))
+        cp = cust if destdir is None else os.path.join(root, destdir, "cz.custom.yaml")
+        if custom is None:
+            if os.path.exists(cp):
+                os.unlink(cp)
+        else:
+            w.files["user/c"] = {"kind": "custom", "patch": custom, "mtime": 0}
+            with open(cp, "w") as fh:
+                fh.write(w.render_file("user/c"))
+
+    def update(d):
+        rc, out = runner.sh([runner.exe, "customize", src, d, "schema/version"], runner.env, 120)
+        return rc, ("customize 1" in out), out
+    keys = [["menu/page_size", 7], ["menu/page_size", 9], ["speller/delimiter", "x"], ["switches", ["a", "b"]], ["schema/name", "Other"]]
+    for step in range(n_steps + 1):
+        if step:
+            k = rng.choice(["release", "release_minor", "custom_on", "custom_mod", "custom_mod", "custom_mod", "custom_off", "nothing"])
+            if k == "release":
+                major, minor = major + rng.choice([1, 9]), 0
+                spec = dict(spec, version="%d.%d" % (major, minor), algebra=spec["algebra"] + [rng.choice(dc.ALGEBRA_POOL)])
+            elif k == "release_minor":
+                minor += rng.choice([1, 9])
+                spec = dict(spec, version="%d.%d" % (major, minor), pad=rng.randint(1, 4))
+            elif k in ("custom_on", "custom_mod"):
+                custom = [list(x) for x in rng.sample(keys, rng.choice([0, 1, 1, 2, 2]))]
+                if len(set(x[0] for x in custom)) != len(custom):
+                    custom = custom[:1]
+            elif k == "custom_off":
+                custom = None
+            log.append("%s -> source %s, patch %s" % (k, spec["version"], custom))
+        write()
+        rc, changed, out = update(dest)
+        runs += 1
+        if rc != 0:
+            viol.append(("C12:customizer:crash", "update %d exited with %d: %s" % (step, rc, out[-300:])))
+            break
+        if step and k == "nothing" and changed:
+            viol.append(("C12:customizer:no-change-update", "an update with nothing changed reported an update"))
+    if not viol:
+        before = (open(dest, "rb").read(), os.stat(dest).st_mtime_ns)
+        rc, changed, out = update(dest)
+        runs += 1
+        if changed or (open(dest, "rb").read(), os.stat(dest).st_mtime_ns) != before:
+            viol.append(("C12:customizer:no-change-update", "an update with nothing changed %s" % ("reported an update" if changed else "rewrote the user copy")))
+        cdest = os.path.join(root, "clean", "cz.schema.yaml")
+        write("clean")
+        update(cdest)
+        runs += 1
+        a, b = open(dest, "rb").read(), (open(cdest, "rb").read() if os.path.exists(cdest) else b"")
+        if a != b:
+            viol.append(("C12:customizer:incremental-vs-clean", "the user copy after the history differs from one update into an empty user directory"))
+    shutil.rmtree(root, ignore_errors=True)
+    return [(sig, what + " [history: %s]" % "; ".join(log)) for sig, what in viol], runs, log
+
+
+def schema_walk(w):
+    """the schema files a workspace update builds, in its order (listed schemas, each followed by its dependencies)"""
+    seen, out = set(), []
+    for sid in w.effective_schema_list() or []:
+        for x in [sid] + (w.effective_schema(sid) or {"deps": []})["deps"]:
+            if x not in seen:
+                seen.add(x)
+                rel = w.resolve(x + ".schema.yaml")
+                if rel:
+                    out.append(rel)
+    return out
+
+
+def run_variant(c, runner, hist, work, tag):
+    """Other ways the same deployment is driven, judged by the property alone (the model takes no part):
+    `prebuilt`   — the shared directory carries a prebuilt `build` (a clean deployment of the base sources, as a
+                   distribution ships it); what is *in use* (staging first, then prebuilt) after the history and a
+                   no-change redeployment must equal a clean deployment of the final sources without any prebuilt data;
+    `prebuild`   — every deployment is RimePrebuildAllSchemas (`prebuild_all_schemas`), compared with a clean one of those;
+    `piecewise`  — every deployment is RimeDeployConfigFile(default.yaml) followed by RimeDeploySchema for each schema
+                   a workspace update would build, compared with a clean full deployment;
+    `verbose`    — after the history, every schema is compiled once more the way `rime_deployer --compile` does (rebuild
+                   all, dump text files), compared with a clean full deployment."""
+    mode = hist["variant"]
+    root, croot, pre = os.path.join(work, tag), os.path.join(work, tag + "_clean"), os.path.join(work, tag + "_pre")
+    for d in (root, croot, pre):
+        shutil.rmtree(d, ignore_errors=True)
+        os.makedirs(d)
+    res = {"mismatches": [], "violations": [], "deploys": 0, "decisions": 0, "rebuilds": 0, "reuses": 0, "detects": []}
+    states = [hist["base"]] + hist["steps"]
+
+    def tasks_for(w, rt):
+        if mode == "prebuild":
+            return "prebuild_all_schemas"
+        if mode == "piecewise":
+            return ",".join(["installation_update", "config_file_update:default.yaml:config_version"] +
+                            ["schema_update:" + os.path.join(rt, rel) for rel in schema_walk(w)])
+        return None
+    if mode == "prebuilt":
+        w0 = dc.Workspace.from_json(states[0])
+        w0.write(pre)
+        runner.deploy(pre, w0.clock + 3)
+        res["deploys"] += 1
+        w0.write(root)
+        shutil.copytree(os.path.join(pre, "user", "build"), os.path.join(root, "shared", "build"))
+    w = None
+    for i, sj in enumerate(states):
+        w = dc.Workspace.from_json(sj)
+        w.write(root)
+        t = tasks_for(w, root)
+        r = runner.deploy(root, w.clock + 3, extra_env={"VERIF_TASKS": t} if t else None)
+        res["deploys"] += 1
+        res.setdefault("trace", []).append({"rc": r["rc"], "tasks": r["tasks"], "rewritten": r["rewritten"]})
+        if r["rc"] not in (0, 1):
+            res["violations"].append(("C12:deploy:crash", "deployment %d (%s) exited with %d: %s" % (i, mode, r["rc"], r["raw"][-600:])))
+        if mode == "prebuilt" and i == 0 and r["rewritten"]:
+            res["violations"].append(("C12:no-change-deploy:rewrote", "a deployment over prebuilt data of the same sources wrote %s" % r["rewritten"]))
+    last = r
+    if mode == "verbose":
+        t = ",".join("compile:" + os.path.join(root, rel) for rel in schema_walk(w))
+        rv = runner.deploy(root, w.clock + 4, extra_env={"VERIF_TASKS": t})
+        res["deploys"] += 1
+        if rv["rc"] != 0:
+            res["violations"].append(("C12:verbose-compile:verdict", "compiling every schema of a deployable workspace the verbose way failed: %s" % rv["raw"][-400:]))
+    t = tasks_for(w, root)
+    r2 = runner.deploy(root, w.clock + 5, extra_env={"VERIF_TASKS": t} if t else None)
+    d2 = runner.dump(root)
+    res["deploys"] += 1
+    if r2["rewritten"]:
+        res["violations"].append(("C12:no-change-deploy:rewrote", "redeploying unchanged sources (%s) rewrote %s" % (mode, r2["rewritten"])))
+    if mode != "verbose" and (r2["rc"] == 0) != (last["rc"] == 0):
+        res["violations"].append(("C12:no-change-deploy:verdict", "redeploying unchanged sources (%s) changed the verdict" % mode))
+    w.write(croot)
+    tc = "prebuild_all_schemas" if mode == "prebuild" else None
+    rc_ = runner.deploy(croot, w.clock + 3, extra_env={"VERIF_TASKS": tc} if tc else None)
+    dclean = runner.dump(croot)
+    res["deploys"] += 1
+    diffs = dc.compare_dumps(d2, dclean)
+    for n, what in diffs:
+        res["violations"].append(("C12:incremental-vs-clean:%s" % what.split(" differs")[0].replace(" ", "-"),
+                                  "after the history (%s), %s: %s (clean deploy of the final sources disagrees)" % (mode, n, what)))
+    if (rc_["rc"] == 0) != (r2["rc"] == 0):
+        res["violations"].append(("C12:incremental-vs-clean:verdict", "incremental (%s) and clean deployments return different verdicts" % mode))
+    if not diffs and mode in ("prebuilt", "verbose"):
+        pairs = dc.session_inputs(w)
+        _, t1 = runner.session(root, pairs)
+        _, t2 = runner.session(croot, pairs)
+        res["session_lines"] = len(t1)
+        if t1 != t2:
+            first = next((a for a, b in zip(t1, t2) if a != b), "length")
+            res["violations"].append(("C12:incremental-vs-clean:session", "session transcripts differ (%s), first: %s" % (mode, first)))
+    for d in (root, croot, pre):
+        shutil.rmtree(d, ignore_errors=True)
+    return res
+
+
 def run_history(c, runner, hist, work, have_hooks, tag, check_sessions=True):
     """hist = {"base": ws json, "steps": [ws json after each edit]}.  Returns dict(mismatches, violations, stats)."""
     if hist.get("file_size_limit") is not None:
         return run_limited(c, runner, hist, work, tag)
+    if hist.get("variant"):
+        return run_variant(c, runner, hist, work, tag)
     root = os.path.join(work, tag)
     shutil.rmtree(root, ignore_errors=True)
     os.makedirs(root)
@@ -194,23 +428,51 @@ def run_history(c, runner, hist, work, have_hooks, tag, check_sessions=True):
     states = [hist["base"]] + hist["steps"]
     res = {"mismatches": [], "violations": [], "deploys": 0, "decisions": 0, "rebuilds": 0, "reuses": 0, "detects": []}
     w = None
+    view = None
+    trash_dir = os.path.join(root, "user", "trash")
     for i, sj in enumerate(states):
         w = dc.Workspace.from_json(sj)
         w.write(root)
+        for kind, name in (hist.get("tamper") or {}).get(str(i), []):
+            model.add(tamper(root, kind, name))
+        for at, n, target in hist.get("legacy_symlinks") or []:
+            if at == i and not os.path.lexists(os.path.join(root, "user", n)):
+                os.symlink(target, os.path.join(root, "user", n))
         now = w.clock + 3
-        model.add(w.describe(intern))
         # the pre-filter, as start_maintenance(False) would evaluate it now
-        model.add(["detect state %s" % ",".join(str(t) for t in w.detect_mtimes(root))])
-        model.add(["deploy %d" % now])
+        detect_line = "detect state %s" % ",".join(str(t) for t in w.detect_mtimes(root))
+        shutil.rmtree(trash_dir, ignore_errors=True)
         r = runner.deploy(root, now)
+        # user copies the deployment moved to user/trash (TrashDeprecatedUserCopy) are no sources of this deployment:
+        # the model is given the sources without them; which copies go is judged here, file by file
+        trashed = sorted(n for n in (os.listdir(trash_dir) if os.path.isdir(trash_dir) else []) if n.endswith(".yaml"))
+        r["trash_mismatch"] = []
+        if have_hooks and r["hooks"]:
+            for n in sorted(set(d.split(" ")[1].split(":", 1)[1] for d in r["decisions"] if d.startswith("d config_needs_update:"))):
+                if w.trash_expected(n) != (n in trashed):
+                    r["trash_mismatch"].append("user copy of %s (shared version %r, user version %r): expected to be %s, was %s" % (
+                        n, w.version_of("shared/" + n) if "shared/" + n in w.files else None,
+                        w.version_of("user/" + n) if "user/" + n in w.files else None,
+                        "moved to trash" if w.trash_expected(n) else "kept", "moved to trash" if n in trashed else "kept"))
+        res["trashed"] = res.get("trashed", 0) + len(trashed)
+        view = w.without_user_copies(trashed)
+        model.add(view.describe(intern))
+        model.add([detect_line])
+        model.add(["deploy %d" % now])
         reals.append(r)
         dumps.append(runner.dump(root))
         res["deploys"] += 1
+        # a session saves its options to user.yaml long after the build: the pre-filter must keep ignoring that file
+        up = os.path.join(root, "user", "user.yaml")
+        if os.path.isfile(up):
+            ns = (now + 1000) * 10**9 + 5 * 10**8
+            os.utime(up, ns=(ns, ns))
     # no-change redeploy
-    model.add(w.describe(intern))
+    model.add(view.describe(intern))
     model.add(["detect state %s" % ",".join(str(t) for t in w.detect_mtimes(root))])
     model.add(["deploy %d" % (w.clock + 5)])
     r2 = runner.deploy(root, w.clock + 5)
+    r2["trash_mismatch"] = []
     d2 = runner.dump(root)
     reals.append(r2)
     dumps.append(d2)
@@ -221,7 +483,7 @@ def run_history(c, runner, hist, work, have_hooks, tag, check_sessions=True):
     ckmap = {"m2r": {}, "r2m": {}}
     for i, (b, r, d) in enumerate(zip(blocks, reals, dumps)):
         mv = model_view(b)
-        mm = correspond(mv, r, d, ckmap, have_hooks)
+        mm = correspond(mv, r, d, ckmap, have_hooks) + r.get("trash_mismatch", [])
         res["decisions"] += len(mv["decisions"])
         res["rebuilds"] += sum(1 for x in mv["decisions"] if x.endswith(" 1"))
         res["reuses"] += sum(1 for x in mv["decisions"] if x.endswith(" 0"))
@@ -229,6 +491,14 @@ def run_history(c, runner, hist, work, have_hooks, tag, check_sessions=True):
             res["detects"].append(r["detect"])
             if detects[i] != r["detect"]:
                 mm.append("detect_modifications: model %d / impl %d" % (detects[i], r["detect"]))
+            # O4, the quick-check path: start_maintenance(full_check=False) deploys only when DetectModifications fires.  Where
+            # it stays silent although the sources changed in a way it is built to see (the model, fed with the mtimes of the
+            # data directories and their *.yaml files, fires) and a full deployment has artefacts to rewrite, the artefacts in
+            # use stay those of the earlier sources
+            if detects[i] == 1 and r["detect"] == 0 and r["rewritten"]:
+                res["violations"].append(("C12:quick-check:stale", "after step %d (%s) start_maintenance(full_check=False) does not deploy — "
+                                          "DetectModifications reports no change — and leaves %s as built from the earlier sources (a full deployment "
+                                          "rewrites them)" % (i, (hist.get("edits") or [[]] * i)[i - 1] if 0 < i <= len(hist.get("edits") or []) else "no edit", r["rewritten"])))
         for m in mm:
             res["mismatches"].append({"deploy": i, "what": m})
         if r["rc"] not in (0, 1):
@@ -248,14 +518,18 @@ def run_history(c, runner, hist, work, have_hooks, tag, check_sessions=True):
     rc_ = runner.deploy(croot, w.clock + 3)
     dclean = runner.dump(croot)
     res["deploys"] += 1
-    diffs = dc.compare_dumps(d2, dclean)
+    # (the yardstick applies to sources a clean deployment can build; otherwise the deployer keeps what it built earlier,
+    # by design, and the correspondence with the model above is the judge)
+    final_ok = view.deployable()
+    res["final_deployable"] = final_ok
+    diffs = dc.compare_dumps(d2, dclean) if final_ok else []
     for n, what in diffs:
         res["violations"].append(("C12:incremental-vs-clean:%s" % what.split(" differs")[0].replace(" ", "-"),
                                   "after the history, %s: %s (clean deploy of the final sources disagrees)" % (n, what)))
-    if (rc_["tasks"].get("workspace_update") == 1) != (reals[-2]["tasks"].get("workspace_update") == 1):
+    if final_ok and (rc_["tasks"].get("workspace_update") == 1) != (reals[-2]["tasks"].get("workspace_update") == 1):
         res["violations"].append(("C12:incremental-vs-clean:verdict", "incremental and clean deployments return different verdicts"))
     # O3: session transcript on both
-    if check_sessions and not diffs:
+    if check_sessions and not diffs and final_ok:
         pairs = dc.session_inputs(w)
         if pairs:
             _, t1 = runner.session(root, pairs)
@@ -279,9 +553,13 @@ def gen_history(rng, n_edits, big=False, epoch="2017"):
         k = rng.randint(1, 2)
         names = []
         for _ in range(k):
-            names.append(dc.gen_edit(rng, w))
+            names.append(dc.gen_edit(rng, w, extra=True))
         hist["steps"].append(w.to_json())
         hist["edits"].append(names)
+    if not w.deployable():
+        # end on sources a clean deployment can build: whatever vanished returns, whatever broke is repaired
+        hist["edits"].append(w.repair())
+        hist["steps"].append(w.to_json())
     return hist
 
 
@@ -292,7 +570,7 @@ def directed_histories(far=True):
     dated far in the future (`far`: the scratch file system can hold such mtimes)"""
     out = []
 
-    def mk(name, *edits, setup=None):
+    def mk(name, *edits, setup=None, **more):
         w = dc.base_workspace(random.Random(11))
         rel = w.resolve("sa.schema.yaml")
         f = copy.deepcopy(w.files[rel])
@@ -306,6 +584,7 @@ def directed_histories(far=True):
             hist["steps"].append(w.to_json())
             hist["edits"].append([label])
         hist["directed"] = name
+        hist.update(more)
         out.append(hist)
 
     def edit(rel_name, mut):
@@ -384,6 +663,142 @@ def directed_histories(far=True):
     mk("white space only: space moved inside an algebra rule of a custom patch -> compiled schema -> prism",
        ("ws_algebra sa.custom", lambda w: w.put("user/sa.custom.yaml", {"kind": "custom", "patch": [["speller/algebra/+", ["derive/^(.)o$/$1u /"]]]})),
        setup=[lambda w: w.put("user/sa.custom.yaml", {"kind": "custom", "patch": [["speller/algebra/+", ["derive/^(.)o$/$1 u/"]]]})])
+
+    # ---- sources that vanish and come back, break and get repaired; what the deployer does to the sources itself
+    def gone(rel_name):
+        def fn(w):
+            rel = w.resolve(rel_name)
+            w.attic = dict(getattr(w, "attic", {}))
+            w.attic[rel] = {k: v for k, v in w.files[rel].items() if k != "mtime"}
+            w.remove(rel)
+        return fn
+
+    def back(rel_name, mut=lambda f: None):
+        def fn(w):
+            rel = next(r for r in w.attic if r.endswith("/" + rel_name))
+            f = w.attic.pop(rel)
+            mut(f)
+            w.put(rel, f)
+        return fn
+    add_row = lambda r: (lambda f: f["rows"].append(list(r)))
+    setf = lambda k, v: (lambda f: f.__setitem__(k, v))
+    mk("primary dictionary source vanishes (its table is reused), the schema is edited meanwhile, the source returns edited",
+       ("gone da", gone("da.dict.yaml")),
+       ("algebra_add sa", edit("sa.schema.yaml", lambda f: f["algebra"].append("derive/^n/l/"))),
+       ("back da, row_add", back("da.dict.yaml", add_row(["啊", "aa", 77]))))
+    mk("imported table vanishes and returns edited",
+       ("gone dx", gone("dx.dict.yaml")), ("back dx, row_add", back("dx.dict.yaml", add_row(["哦", "ou", 66]))))
+    mk("pack source vanishes (its table is kept), the primary dictionary is edited meanwhile, the pack source returns",
+       ("gone pk1", gone("pk1.dict.yaml")),
+       ("row_add da", edit("da.dict.yaml", add_row(["啊", "aa", 77]))),
+       ("back pk1", back("pk1.dict.yaml")))
+    mk("included config vanishes (the schema cannot be compiled), the schema is edited meanwhile, the config returns",
+       ("gone common", gone("common.yaml")),
+       ("algebra_add sa", edit("sa.schema.yaml", lambda f: f["algebra"].append("derive/^n/l/"))),
+       ("back common", back("common.yaml")))
+    mk("preset vocabulary vanishes, returns empty, returns with its phrases",
+       ("gone essay", gone("essay.txt")),
+       ("back essay, empty", back("essay.txt", lambda f: (f.__setitem__("saved", f["rows"]), f.__setitem__("rows", [])))),
+       ("essay refilled", edit("essay.txt", lambda f: f.__setitem__("rows", f.pop("saved")))))
+    mk("dictionary headers lose their version and get it back: primary, then a pack listed before another",
+       ("dict_header da 1", edit("da.dict.yaml", setf("bad_header", True))),
+       ("dict_header da 0, row_add", edit("da.dict.yaml", lambda f: (f.pop("bad_header"), f["rows"].append(["啊", "aa", 77])))),
+       ("dict_header pk1 1", edit("pk1.dict.yaml", setf("bad_header", True))),
+       ("dict_header pk1 0", edit("pk1.dict.yaml", lambda f: f.pop("bad_header"))))
+    mk("a schema loses its id, becomes unparsable, is repaired: a dependency, then a listed one",
+       ("schema_break sc no_id", edit("sc.schema.yaml", setf("broken", "no_id"))),
+       ("schema_break sc unparsable, row_add da", lambda w: (edit("sc.schema.yaml", setf("broken", "unparsable"))(w), edit("da.dict.yaml", add_row(["啊", "aa", 77]))(w))),
+       ("schema_fix sc", edit("sc.schema.yaml", lambda f: f.pop("broken"))),
+       ("schema_break sb no_id", edit("sb.schema.yaml", setf("broken", "no_id"))),
+       ("schema_fix sb, algebra", edit("sb.schema.yaml", lambda f: (f.pop("broken"), f.__setitem__("pad", 2)))))
+    mk("schema list: a missing schema, a schema listed twice, entries that are no schema, no list at all, an empty list",
+       ("list_odd sa,ghost", edit("default.yaml", setf("schema_list", ["sa", "ghost"]))),
+       ("list_odd sb,sa,sb,sc,sa", edit("default.yaml", setf("schema_list", ["sb", "sa", "sb", "sc", "sa"]))),
+       ("list_odd scalar,map-without-schema", edit("default.yaml", setf("schema_list", ["!just_a_scalar", "sc", "!{note: no schema here}", "sb"]))),
+       ("list_odd none", edit("default.yaml", setf("schema_list", None))),
+       ("list_odd []", edit("default.yaml", setf("schema_list", []))),
+       ("list sa,sb", edit("default.yaml", setf("schema_list", ["sa", "sb"]))))
+    mk("a schema without a dictionary is listed, then gets one",
+       ("schema sd added and listed", lambda w: (w.put("shared/sd.schema.yaml", {"kind": "schema", "sid": "sd", "algebra": ["derive/^a/e/"]}),
+                                                 edit("default.yaml", setf("schema_list", ["sd", "sa"]))(w))),
+       ("sd gets dictionary db", edit("sd.schema.yaml", lambda f: f.update({"dict": "db", "prism": "sd", "style": "table"}))))
+    mk("algebra: a rule that does not load (the prism is built without any algebra), then repaired",
+       ("badrule sc derive/x", edit("sc.schema.yaml", lambda f: f["algebra"].append("derive/x"))),
+       ("row_add da meanwhile", edit("da.dict.yaml", add_row(["啊", "aa", 77]))),
+       ("algebra repaired", edit("sc.schema.yaml", lambda f: f.__setitem__("algebra", ["derive/^sh/s/"]))))
+    mk("line ends and versions of dictionary files: CRLF, no final newline, back; version bumps",
+       ("eol da crlf", edit("da.dict.yaml", setf("eol", "crlf"))),
+       ("eol da nofinal", edit("da.dict.yaml", setf("eol", "nofinal"))),
+       ("eol pk2 nofinal", edit("pk2.dict.yaml", setf("eol", "nofinal"))),
+       ("eol dx crlf", edit("dx.dict.yaml", setf("eol", "crlf"))),
+       ("dict_version da 2", edit("da.dict.yaml", setf("version", "2"))),
+       ("dict_version dx 2", edit("dx.dict.yaml", setf("version", "2"))))
+
+    def user_copy(sid, version, **chg):
+        def fn(w):
+            f = {k: v for k, v in w.files["shared/%s.schema.yaml" % sid].items() if k != "mtime"}
+            f.update(chg)
+            f["version"] = version
+            w.put("user/%s.schema.yaml" % sid, f)
+        return fn
+
+    def user_default(version, **chg):
+        def fn(w):
+            f = {k: v for k, v in w.files["shared/default.yaml"].items() if k != "mtime"}
+            f.update(chg)
+            f["version"] = version
+            w.put("user/default.yaml", f)
+        return fn
+    mk("user copies of schemas next to the shared ones: same version (kept), older (moved to trash), stamped by the old customizer (trash), newer (kept), without a version (trash)",
+       ("shadow_old sc 1", user_copy("sc", "1", algebra=["derive/^d/t/"])),
+       ("shadow_old sc 0.9", user_copy("sc", "0.9", algebra=["derive/^b/p/"])),
+       ("shadow_old sa 1.custom.777", user_copy("sa", "1.custom.777", algebra=["derive/^g/k/"])),
+       ("shadow_old sb 2", user_copy("sb", "2", pad=2)),
+       ("shadow_old sb none", user_copy("sb", None, pad=3)))
+    mk("multi-part versions: shared 1.10 against user 1.9 (trash) and 1.10.1 (kept); shared `2.0.minimal` against user 2.0 (kept) and 2 (kept)",
+       ("shared_version sc 1.10, shadow_old sc 1.9", lambda w: (edit("sc.schema.yaml", setf("version", "1.10"))(w), user_copy("sc", "1.9", algebra=["derive/^d/t/"])(w))),
+       ("shadow_old sc 1.10.1", user_copy("sc", "1.10.1", algebra=["derive/^b/p/"])),
+       ("shared_version sa 2.0.minimal, shadow_old sa 2.0", lambda w: (edit("sa.schema.yaml", setf("version", "2.0.minimal"))(w), user_copy("sa", "2.0", algebra=["derive/^g/k/"])(w))),
+       ("shadow_old sa 2", user_copy("sa", "2", algebra=["derive/^d/t/"])),
+       ("shadow_old sa 1.9.9", user_copy("sa", "1.9.9", algebra=["derive/^b/p/"])))
+    mk("user copies of default.yaml: same version (kept), customizer stamp (trash), newer (kept), older (trash)",
+       ("shadow_default 1.0", user_default("1.0", page_size=7, schema_list=["sb"])),
+       ("shadow_default 1.0.custom.42", user_default("1.0.custom.42", page_size=8, schema_list=["sc"])),
+       ("shadow_default 1.1", user_default("1.1", page_size=9, schema_list=["sb", "sc"])),
+       ("shared_version default 1.2", lambda w: w.put("shared/default.yaml", dict({k: v for k, v in w.files["shared/default.yaml"].items() if k != "mtime"}, version="1.2"))))
+    mk("compiled configs of other vintages in the staging directory: no timestamps, no build info, a time that is no number, timestamps that are no map",
+       ("touch nothing 1", lambda w: w.touch("shared/essay.txt")), ("touch nothing 2", lambda w: w.touch("shared/essay.txt")),
+       ("touch nothing 3", lambda w: w.touch("shared/essay.txt")), ("touch nothing 4", lambda w: w.touch("shared/essay.txt")),
+       tamper={"1": [["no_timestamps", "sa.schema.yaml"]], "2": [["no_build_info", "default.yaml"], ["bad_timestamp", "sb.schema.yaml"]],
+               "3": [["timestamps_scalar", "sc.schema.yaml"]], "4": [["bad_timestamp_word", "default.yaml"]]})
+    mk("what an older installation left in the user directory: links to shared files, a dangling link, installation info of another version, binaries",
+       ("custom_on sa", lambda w: w.put("user/sa.custom.yaml", {"kind": "custom", "patch": [["menu/page_size", 7]]})),
+       ("row_add dx", edit("dx.dict.yaml", add_row(["哦", "ou", 66]))),
+       setup=[lambda w: w.put("user/installation.yaml", {"kind": "raw", "text": "installation_id: \"verif-0001\"\ndistribution_code_name: verif\n"
+                                                         "distribution_version: \"0.0.1\"\nrime_version: \"0.0.1\"\nsync_dir: \"sync_elsewhere\"\nbackup_config_files: false\n"}),
+              lambda w: w.put("user/old.table.bin", {"kind": "raw", "text": "not a table"})],
+       legacy_symlinks=[[1, "dx.dict.yaml", "../shared/dx.dict.yaml"], [1, "sc.schema.yaml", "../shared/sc.schema.yaml"],
+                        [2, "gone.yaml", "../shared/gone.yaml"], [2, "rime.log", "../shared/nothing"]])
+    # ---- files that reach an artefact only indirectly, edited alone
+    mk("preset reached only through key_binder/import_preset -> compiled schema",
+       ("indirect kb: binding added", edit("kb.yaml", lambda f: f["rows"].append(["Control+g", "Escape"]))),
+       ("indirect_custom_on kb", lambda w: w.put("user/kb.custom.yaml", {"kind": "custom", "patch": [["key_binder/bindings/+", ["{when: always, accept: Control+z, send: Escape}"]]]})),
+       ("indirect_custom_off kb", lambda w: w.remove("user/kb.custom.yaml")))
+    mk("patch kept in a file of its own (__patch: tweaks:/patch) -> compiled schema -> prism",
+       ("indirect tweaks: page size", edit("tweaks.yaml", lambda f: f.__setitem__("patch", [["menu/page_size", 9]]))),
+       ("indirect tweaks: algebra", edit("tweaks.yaml", lambda f: f.__setitem__("patch", [["speller/algebra/+", ["derive/^d/t/"]]]))),
+       ("custom_on sc (ignored: the schema names its own patch)", lambda w: w.put("user/sc.custom.yaml", {"kind": "custom", "patch": [["menu/page_size", 3]]})))
+    mk("vocabulary file of another name (vocabulary: lexicon) -> table",
+       ("indirect lexicon: phrase added", edit("lexicon.txt", lambda f: f["rows"].append([dc.HAN[20] + dc.HAN[22], 60]))),
+       ("db lets phrases in", edit("db.dict.yaml", lambda f: (f.pop("max_phrase_length"), f.pop("min_phrase_weight")))),
+       ("indirect lexicon: phrase removed", edit("lexicon.txt", lambda f: f["rows"].pop())))
+    mk("files that come and go with old modification times: only the directory shows it (cp -p, rm)",
+       ("old_mtime sa.custom", lambda w: w.put("user/sa.custom.yaml", {"kind": "custom", "patch": [["menu/page_size", 7]], "skew": -500000})),
+       ("custom_off sa", lambda w: w.remove("user/sa.custom.yaml")),
+       ("old_mtime default.custom", lambda w: w.put("user/default.custom.yaml", {"kind": "custom", "patch": [["menu/page_size", 4]], "skew": -400000})),
+       ("old_mtime user copy of dx", lambda w: w.put("user/dx.dict.yaml", dict({k: v for k, v in w.files["shared/dx.dict.yaml"].items() if k != "mtime"},
+                                                                                rows=w.files["shared/dx.dict.yaml"]["rows"] + [["哦", "ou", 66]], skew=-300000))),
+       ("rm user copy of dx", lambda w: w.remove("user/dx.dict.yaml")))
     if not far:
         return out
 
@@ -434,7 +849,7 @@ def shrink(c, runner, hist, work, have_hooks, bad):
             if i + 1 < len(edits):
                 edits[i + 1] = edits[i] + edits[i + 1]
             cand = {"base": cur["base"], "steps": cur["steps"][:i] + cur["steps"][i + 1:], "edits": edits[:i] + edits[i + 1:]}
-            for k in ("directed", "epoch"):
+            for k in ("directed", "epoch", "variant"):
                 if k in cur:
                     cand[k] = cur[k]
             if i == len(cur["steps"]) - 1 and not cand["steps"]:
@@ -494,7 +909,7 @@ def run(c):
     ts_bits = gen["facts"].get("timestampBits", 0)
     dc.set_timestamp_bits(ts_bits)
     # K + O
-    n_hist, n_edits = (30, 5) if quick else (300, 8)
+    n_hist, n_edits = (22, 5) if quick else (300, 8)
     stats = {"histories": 0, "deploys": 0, "decisions": 0, "rebuilds": 0, "reuses": 0, "mismatches": 0, "edit_kinds": {},
              "session_lines": 0, "corpus": 0, "epochs": {}}
     samples, nontrivial = [], set()
@@ -505,6 +920,8 @@ def run(c):
         for k in ("deploys", "decisions", "rebuilds", "reuses"):
             stats[k] += res[k]
         stats["session_lines"] += res.get("session_lines", 0)
+        stats["trashed"] = stats.get("trashed", 0) + res.get("trashed", 0)
+        stats["undeployable_final"] = stats.get("undeployable_final", 0) + (0 if res.get("final_deployable", True) else 1)
         stats["detect_fired"] = stats.get("detect_fired", 0) + sum(res["detects"])
         stats["detect_silent"] = stats.get("detect_silent", 0) + sum(1 for d in res["detects"] if not d)
         stats["mismatches"] += len(res["mismatches"])
@@ -553,6 +970,37 @@ def run(c):
             stats["deploys"] += res["deploys"]
             for sig, what in res["violations"]:
                 all_viol.append((sig, what + " [directed: %s]" % hist["directed"], h2))
+    # the same deployments driven the other ways the API offers (judged by the property alone): over a prebuilt directory
+    # shipped with the shared data, by RimePrebuildAllSchemas, piecewise by RimeDeployConfigFile / RimeDeploySchema, and
+    # with a verbose recompilation (`rime_deployer --compile`) at the end
+    base_dir = directed_histories(False)
+    pick = lambda *keys: [h for h in base_dir if any(h["directed"].startswith(k) for k in keys)]
+    if quick:
+        variants = ([("prebuilt", h) for h in pick("primary syllabary", "custom patch appears", "user copy shadows",
+                                                   "primary dictionary source vanishes", "pack source vanishes")]
+                    + [("prebuild", h) for h in pick("imported table ->")]
+                    + [("piecewise", h) for h in pick("included config ->", "default.custom appears")]
+                    + [("verbose", h) for h in pick("preset vocabulary ->")])
+    else:
+        ok_final = [h for h in base_dir if dc.Workspace.from_json(h["steps"][-1]).deployable() and not h.get("tamper") and not h.get("legacy_symlinks")]
+        variants = [(m, h) for m in ("prebuilt", "prebuild", "piecewise", "verbose") for h in ok_final
+                    if not (m in ("prebuild", "piecewise") and ("user cop" in h["directed"] or "multi-part" in h["directed"]))]
+    for i, (mode, hist) in enumerate(variants):
+        h2 = dict(hist, variant=mode)
+        res = run_history(c, runner, h2, c.work, have_hooks, "var%d" % i)
+        stats["variant_deployments"] = stats.get("variant_deployments", 0) + res["deploys"]
+        stats.setdefault("variants", {})[mode] = stats.setdefault("variants", {}).get(mode, 0) + 1
+        stats["deploys"] += res["deploys"]
+        stats["session_lines"] += res.get("session_lines", 0)
+        for sig, what in res["violations"]:
+            all_viol.append((sig, what + " [%s; directed: %s]" % (mode, hist["directed"]), h2))
+    # the older patching mechanism (Customizer::UpdateConfigFile), same reading of the property
+    for i in range(6 if quick else 150):
+        seed = c.rng.randrange(2**31)
+        v, runs, log = run_customizer(c, runner, random.Random(seed), c.work, "cz%d" % i)
+        stats["customizer_updates"] = stats.get("customizer_updates", 0) + runs
+        for sig, what in v:
+            all_viol.append((sig, what, {"base": None, "steps": [], "customizer_seed": seed}))
     # generated histories
     for h in range(n_hist):
         big = (h % 5 == 4)
@@ -608,11 +1056,15 @@ def run(c):
                  "preset vocabulary, touch, user-directory shadow copies, dependencies, included config, padding > 8 KiB, edits that "
                  "change white space only but not the meaning-bearing letters: syllable boundary moved / joined / split, tab and space "
                  "trading places, a space typed into a vocabulary phrase; files re-dated to 2040 / 2106; every third history with "
-                 "all mtimes and deployment times in 2040, across 2^31 s or across 2^32 s); one evaluation = "
+                 "all mtimes and deployment times in 2040, across 2^31 s or across 2^32 s; sources that vanish and return (dictionaries, "
+                 "imports, packs, included config, vocabulary), broken / repaired schemas and dictionary headers, odd schema lists, user copies "
+                 "of every vintage next to shared ones, CRLF / missing final newline, compiled configs of other vintages, legacy links); one evaluation = "
                  "one real deployment compared with the model; a history is non-trivial when its deployments took both 'rebuild' and "
                  "'reuse' decisions; distinct by edit list"),
         "samples": samples, "histories": stats["histories"], "decisions_compared": stats["decisions"],
         "rebuild_decisions": stats["rebuilds"], "reuse_decisions": stats["reuses"], "edit_kind_distribution": stats["edit_kinds"], "deployments_on_a_full_disk": stats.get("limited_deployments", 0),
+        "histories_driven_other_ways": stats.get("variants", {}), "customizer_updates": stats.get("customizer_updates", 0), "user_copies_moved_to_trash": stats.get("trashed", 0),
+        "histories_ending_undeployable": stats.get("undeployable_final", 0),
         "session_transcript_lines": stats["session_lines"], "corpus_cases": stats["corpus"], "directed_histories": stats.get("directed", 0),
         "far_future_mtimes": "run" if far else "NOT RUN (the scratch file system cannot hold mtimes past 2^31 s)",
         "generated_histories_by_epoch": stats["epochs"],
@@ -632,11 +1084,20 @@ def run(c):
                      "the config compiler records every resource it reads in __build_info/timestamps and reads nothing else",
                      "final sources deployable: listed schemas exist, dictionaries / imports / packs of reachable schemas have sources",
                      "one prism name per schema; a pack belongs to one primary dictionary (idempotence, no-stale-use)",
-                     "prebuilt data directory empty; no deprecated user copies (TrashDeprecatedUserCopy not modelled)"]
+                     "the comparison with a clean deployment is made when the final sources are deployable (else the deployer keeps earlier "
+                     "artefacts by design and only the correspondence with the model is checked)",
+                     "Customizer::UpdateConfigFile: releases of the source carry a higher version with the same number of parts (its update strategy)"]
 
 
 def replay(c, r):
     hist = r.get("history") or (r if "base" in r and "steps" in r else None)      # a replay file, or a corpus history itself
+    if hist and hist.get("customizer_seed") is not None:
+        exe, bdir = vlib.build_harness("c12_harness", FLAVOUR, ["c12_harness.cc"], libs=["-lmarisa"])
+        v, runs, log = run_customizer(c, dc.Runner(exe, FLAVOUR), random.Random(hist["customizer_seed"]), c.work, "replay")
+        for sig, what in v:
+            print("replay: %s: %s" % (sig, what))
+        print("replay: customizer history %s -> %s" % (log, "FAILS" if v else "ok"))
+        return 1 if v else 0
     if not hist:
         print("replay: this file names a broken obligation, no concrete input:", r.get("what"))
         return 1
